@@ -125,9 +125,10 @@ template <class B> struct world {
             copy_model(a, b); state[a] = LIVE;
             break;
         case OP_MOVE_ASSIGN:
-            vf_assume(state[a] != EMPTY && state[b] == LIVE && a != b);
+            vf_assume(state[a] != EMPTY && state[b] == LIVE);
             at(a) = std::move(at(b));
-            copy_model(a, b); state[a] = LIVE; state[b] = MOVED;
+            // a == b: move self-assignment keeps the value (as the defaulted members over unique_ptr do)
+            if (a != b) { copy_model(a, b); state[a] = LIVE; state[b] = MOVED; }
             break;
         case OP_WRITE: {
             vf_assume(state[a] == LIVE);
